@@ -303,4 +303,129 @@ def step (st : DState) (op impl : String) : DState × StepOut :=
 def run (ops impl : Array String) : IO Tally :=
   replay ({} : DState) step ops impl
 
+/-! ### Free-running traces (model name `c12-free`; harness `hcoreas/timers_as`, async-std backend)
+
+The timers run on a REAL clock on async-std's executor: there are no quiescent points and no virtual time,
+so the model is NOT replayed (no DIFF); the implementation's history is folded into a `Timers.State` by the
+same `absorb` and judged by the clause functions of `Timers.ok` that are sound for observed instants:
+
+* every instant in the trace is read from one monotonic clock by the task the event happens in (message
+  builder, target handler, supervisor of the target), the `t=` of an op after the snapshot of the events; the
+  `t=` of a creation op and of `stop`/`kill`/`drain` is read BEFORE the API call (a lower bound of the call);
+* `earlyOk`, `shotOk`, `finOk`, `closedOk`, `handledOk`, `reasonOk` verbatim; `acceptOk` with the UPPER bound of
+  the instant the target stopped accepting (its observed exit) for a handle that said `Ok`; for `Err` its clause
+  "the target had stopped accepting" becomes: a close had begun (`lo`: the earliest closing API call / earliest
+  legal firing of an exit_after / kill_after) no later than the handle was seen finished (the attempt's own stamp
+  is taken before the failing send and may precede the close);
+  in `reasonOk` an exit_after / kill_after timer counts from its earliest legal firing `created + period`
+  (it has no message builder whose call could be time-stamped): exits are never early;
+* liveness with a generous real-time bound `slack`: `await i` must find timer `i` finished (bounded wait in the
+  harness, event-driven), a one-shot timer fires and the k-th interval message is handled no later than
+  `created + k·period + slack`, an interval is gone no later than `exit + period + slack`.
+
+ops: `case n` | `sa|si|ea|ka|dsa|dsi|dea|dka p` | `await i` | `awaithd i k` | `abort i` | `stop|kill|drain`
+(the API call only) | `awaitexit`. -/
+
+def slack : Nat := 3000000
+
+structure FState where
+  v : State := {}
+  /-- lower bound of the instant the target stopped accepting -/
+  lo : Option Nat := none
+
+def minOpt (a : Option Nat) (b : Nat) : Option Nat :=
+  match a with | some x => some (min x b) | none => some b
+
+def freeTimerOk (lo hi : Option Nat) (now : Nat) (τ : Timer) : Bool :=
+  earlyOk τ.created τ.period 0 τ.sentAt
+  && τ.sentAt.all (fun t => decide (t ≤ now))
+  && shotOk τ
+  && (τ.kind.oneShot || τ.res != .err)
+  && finOk now τ
+  && closedOk hi τ
+  && (match τ.res with
+      | .ok => acceptOk hi τ
+      -- `Err`: the attempt's stamp is taken in the message builder, i.e. BEFORE the failing send, so it may
+      -- precede the close; what is certain is that a close had begun (`lo`) by the time the handle was seen finished
+      | .err => τ.kind != .sendAfter ||
+          (match lo, τ.finAt with
+           | some l, some tf => decide (l ≤ tf)
+           | _, _ => false)
+      | _ => true)
+
+/-- an exit_after / kill_after timer, for `reasonOk`: acts no earlier than `created + period` -/
+def legalFiring (τ : Timer) : Timer :=
+  if τ.kind.sends || τ.res == .cancelled then τ else { τ with sentAt := [τ.created + τ.period] }
+
+def freeTargetOk (s : State) : Bool :=
+  (match s.target.exit with
+   | some (r, te) => reasonOk { s with timers := s.timers.map legalFiring } r te && decide (te ≤ s.now)
+   | none => true)
+  && s.target.handled.all (handledOk s)
+
+def freeLate (s : State) : List String :=
+  (s.timers.zipIdx.map fun (τ, i) =>
+    -- one-shot: finished (fired) in time; interval: k-th message handled in time
+    (if τ.kind.oneShot && τ.res == .ok && !(τ.sentAt.all fun t => decide (t ≤ τ.created + τ.period + slack))
+      then [s!"C12.late timer={i}"] else [])
+    ++ (if τ.kind == .interval &&
+          !(s.target.handled.all fun h => h.1 != i || decide (h.2.2 ≤ τ.created + h.2.1 * τ.period + slack))
+        then [s!"C12.late-interval timer={i}"] else [])
+    ++ (match s.target.closedAt, τ.finAt with
+        | some tc, some tf =>
+          if τ.kind == .interval && τ.res == .ok && decide (tc + τ.period + slack < tf) && decide (τ.created ≤ tc)
+          then [s!"C12.dies-late timer={i}"] else []
+        | _, _ => [])).flatten
+
+def parseFreeOp? (ws : List String) : Option MOp :=
+  match ws with
+  | ["await", _] => some (.adv 0)
+  | ["awaithd", _, _] => some (.adv 0)
+  | ["awaitexit"] => some (.adv 0)
+  | _ => parseMOp? ws
+
+def stepFree (st : FState) (op impl : String) : FState × StepOut :=
+  match (words op).filter (fun w => !w.startsWith "h=") with
+  | "case" :: _ => ({}, { model := impl })
+  | ws =>
+    match parseFreeOp? ws, parseImpl? impl with
+    | none, _ => (st, { model := "bad-op" })
+    | some _, none => (st, { model := impl, oracle := ["unparsable"] })
+    | some mop, some o =>
+      let (v', errs) := absorb st.v mop o
+      -- lower bound of the close: the earliest closing call, the earliest legal firing of ea / ka
+      let lo := match mop with
+        | .stop | .kill | .drain => minOpt st.lo o.t
+        | .create k p => if k == .exitAfter || k == .killAfter then minOpt st.lo (o.t + p) else st.lo
+        | _ => st.lo
+      let hi := v'.target.closedAt
+      let live : List String := match ws with
+        | ["await", i] =>
+          (match i.toNat? with
+           | some i => (match v'.timers[i]? with
+              | some τ => if τ.res == .pending then [s!"C12.live timer={i}"] else []
+              | none => ["await-unknown-timer"])
+           | none => ["bad-op"])
+        | ["awaithd", i, k] =>
+          (match i.toNat?, k.toNat? with
+           | some i, some k =>
+             let got := v'.target.handled.any fun h => h.1 == i && h.2.1 == k
+             let excused := lo.isSome || (match v'.timers[i]? with | some τ => τ.res != .pending | none => false)
+             if got || excused then [] else [s!"C12.live-interval timer={i} k={k}"]
+           | _, _ => ["bad-op"])
+        | ["awaitexit"] => if v'.target.exit.isSome || lo.isNone then [] else ["C12.live-exit"]
+        | _ => []
+      let orc := errs
+        ++ (if v'.timers.all (freeTimerOk lo hi v'.now) then []
+            else [s!"C12.ok {firstBad v' (fun s τ => freeTimerOk lo hi s.now τ)}"])
+        ++ (if freeTargetOk v' then [] else ["C12.ok target"])
+        ++ freeLate v' ++ live
+      let nt := !o.att.isEmpty || !o.hd.isEmpty
+                  || (v'.timers.map (·.res)).take st.v.timers.length != st.v.timers.map (·.res)
+                  || (st.v.target.exit.isNone && v'.target.exit.isSome)
+      ({ v := v', lo := lo }, { model := impl, oracle := orc, nontrivial := nt })
+
+def runFree (ops impl : Array String) : IO Tally :=
+  replay ({} : FState) stepFree ops impl
+
 end Driver.C12
